@@ -94,6 +94,18 @@ CHECKS = {
          "published vector. An empty ;PQ challenge is C03's subject (robustness), not judged here.",
     technique="executable TLA+ arithmetic specification evaluated by TLC over recorded real handshakes",
     design="4 C16"),
+ "C03": dict(
+    level="exploration",
+    text="B2FRobust.tla is the hostile-input automaton (protocol phase x token class -> only Continue/ReturnNil/ReturnErr); TLC enumerates "
+         "all class paths to a depth bound; a covering subset plus a sample is concretised into byte transcripts (malformed handshake "
+         "lines, commands, answers, frames, payloads with repaired checksums, decompressed messages with repaired CRC so the deepest "
+         "layer is reached) and conforming transcripts are mutated at the byte level; each transcript is fed to a real Session (both "
+         "roles, with and without outbound pending, three read segmentations) in an isolated child process with a 5 s watchdog and "
+         "allocation accounting; TLC validates the outcomes against the automaton.",
+    note="Classes, not all byte strings; memory proportionality is a threshold (32 MiB + 4096 x bytes received), not a proof. Trusted: "
+         "TLC, the concretiser, runtime.MemStats.",
+    technique="TLA+ input automaton -> TLC-enumerated class paths -> real sessions in child processes; TLC validates outcomes",
+    design="4 C03"),
 }
 
 NOT_YET = "check not built yet (work in progress; see DESIGN.md section 8 for the build order)"
